@@ -68,3 +68,17 @@ check('C13', 'objsim', 'exploration',
       'deterministic simulation: seeded observer / buffer-reuse / instance-lifetime histories vs frozen snapshots',
       'DESIGN.md 4.2')
 PENDING.pop('C13', None)
+check('C14', 'objsim', 'exploration',
+      'Three simulated dimensions of the process environment and history: (i) hash randomisation - every corpus '
+      'object plus fixed factory-built and synthetic report objects are serialised in fresh interpreters under 3 '
+      '(quick) / 16 (thorough) PYTHONHASHSEED values and compared; (ii) construction order - set / dict valued fields '
+      'are rebuilt with permuted insertion orders of members chosen to collide in small hash tables, and compared '
+      'with each other and with the parse-compose round trip; (iii) serialisation order and residual state - seeded '
+      'histories serialise 2-8 subjects in two different orders, with and without a custom post_text_encoder '
+      'installed, checking well-formedness (json.loads, str), order independence, equality with the round-trip twin, '
+      'and that the installed encoder survives every call.',
+      'Trusted: json.loads as the standard JSON parser; canon() to decide that two objects are equal. Faithfulness '
+      'of individual renderings (what the text says) is not judged, only totality, well-formedness and determinism.',
+      'deterministic simulation: fresh interpreters per hash seed, permuted construction order, seeded serialisation histories',
+      'DESIGN.md 4.3')
+PENDING.pop('C14', None)
